@@ -326,6 +326,10 @@ func demangleSingleFunction(fn *profile.Function, options []demangle.Option) {
 				name = removeMatching(name, '<', '>')
 			}
 		}
+		if name == "" {
+			// Nothing but parameters, e.g. "<unknown>": keep the name.
+			name = fn.SystemName
+		}
 	}
 	fn.Name = name
 }
